@@ -240,6 +240,19 @@ def run(tier, replay=None):
         m, sx = mamba_int(ck.rng, ck.rng.randint(1, 5))
         src = f"def a := 5\ndef b := 7\ndef c := 11\ndef r := {m}\n"
         e2e.append((f"e{k}", src, sx))
+    # signed operands and literals in every operator slot (inputs the checker rejects today leave the premise
+    # unsatisfied; they are judged as soon as they are accepted)
+    k = len(e2e)
+    neg = [("(-2)", f"(UnaryOp USub (Num {S('2')}))"), ("(-a)", f"(UnaryOp USub (Name {S('a')}))"),
+           ("(+3)", f"(UnaryOp UAdd (Num {S('3')}))"), ("(-1.5)", f"(UnaryOp USub (Num {S('1.5')}))")]
+    for op, (pyop, _) in M_BIN.items():
+        for nt, nx in neg:
+            for (l, lx), (r_, rx) in (((nt, nx), ("b", f"(Name {S('b')})")), (("b", f"(Name {S('b')})"), (nt, nx)),
+                                      ((nt, nx), ("2", f"(Num {S('2')})"))):
+                for decl in ("def r := ", "def r: Int := ", "def r: Float := "):
+                    src = f"def a := 5\ndef b := 7\n{decl}{l} {op} {r_}\n"
+                    e2e.append((f"e{k}", src, f"({pyop} {lx} {rx})"))
+                    k += 1
     er = run_sharded(MH, [f"{i}\ttranspile\t0\t{hexs(s)}" for i, s, _ in e2e])
     e2e_ok = 0
     for i, src, sx in e2e:
